@@ -389,7 +389,7 @@ where
         }
         // check the eventually properties
         for (i, property) in properties.iter().enumerate() {
-            if ebits.contains(i) {
+            if ebits.contains(i) && !discoveries.contains_key(property.name) {
                 // Races other threads, but that's fine.
                 discoveries.insert(property.name, fingerprint_path.clone());
             }
